@@ -40,6 +40,8 @@ def mentions_stored(t):
 
 def run(eng, tier):
     oks = eng.paths('migrate', 'ok')
+    from wire import check_wire
+    nwire = check_wire(eng, PROP, ['ask', 'contract_info', 'version_info'])
     eng.ob(len(oks) > 0, PROP, 'floor-ok-path', 'migrate', 'no successful migrate path (fail closed)')
     crate, version = package_info()
     reqs_seen = set(); rows = collections.Counter()
@@ -129,7 +131,7 @@ def run(eng, tier):
     return {
         'explanation': 'On every successful path of `migrate` (four steps inlined): the stored version parses and passes a ">= 0.16.2" gate on the parsed stored version before any write (requirement strings are constants from a confirmed set; effective minimum folded by L-sem); nothing in "ask" is written; '
                        'the configuration saved is the stored one with only the five overridable fields changed, each only when supplied, installed exactly and independent of stored state (idempotent); the version stamp equals the package name/version and is the last write; the stamped version passes the gates and lies outside the conversion window, so a second run rewrites nothing.',
-        'inventory': {'ok_paths': len(oks), 'requirement_strings': sorted(reqs_seen), 'override_rows': dict(rows)},
+        'inventory': {'wire_format_types_checked': nwire, 'ok_paths': len(oks), 'requirement_strings': sorted(reqs_seen), 'override_rows': dict(rows)},
         'trusted_base': ['semver matching folded on literal x.y.z versions only (L-sem)', 'interpreter models'],
         'not_decided': ['behaviour on storage that violates the schema', 'pre-release / build-metadata version strings are not folded (the gate operand must be the parsed stored version itself)'], 'assumptions': [],
     }
